@@ -301,7 +301,7 @@ def gen_exclude_case(rng, n):
             "placement": placement, "fates": changes, "ref_target": ref_target, "fk_from_db_only": fk_from_db_only}
 
 
-SUB_FATES = ["same", "addcol", "addidx", "retype", "fkcol-same", "fkcol-addcol", "idxcol-same", "fkidxcol-same", "main-col", "main-nomatch"]
+SUB_FATES = ["same", "addcol", "addidx", "retype", "fkcol-same", "fkcol-addcol", "idxcol-same", "fkidxcol-same", "main-col", "main-nomatch", "like-names", "dot-name"]
 
 
 def gen_sub_case(rng, n):
@@ -319,6 +319,19 @@ def gen_sub_case(rng, n):
         return {"n": n, "kind": "exclude-sub", "cur": [t, leg, other], "want": [w, copy.deepcopy(leg), copy.deepcopy(other)],
                 "patterns": [["main.legacy", "main.legac?"][(n // len(SUB_FATES)) % 2]],
                 "fate": fate, "source": source, "ptable": "main", "pcol": "legacy", "pidx": None}
+    if fate == "like-names":
+        # literal patterns vs names that only SQL LIKE would take for a match (`_` is a wildcard there, and case is ignored)
+        x = table("aud_log", [("a", "text", False)], idx=[["ix_aud", ["a"], False]])
+        y = table("audXlog", [("a", "text", False)])
+        u = table("Users", [("a", "text", False)])
+        return {"n": n, "kind": "exclude-sub", "cur": [x, y, u, other], "want": [copy.deepcopy(y), copy.deepcopy(u), copy.deepcopy(other)],
+                "patterns": ["aud_log", "users"], "fate": fate, "source": source, "ptable": None, "pcol": None, "pidx": None}
+    if fate == "dot-name":
+        # a table whose name contains a dot, only in the database; the quoted pattern part is tripled to survive the flag's CSV parsing
+        x = table("au.lg", [("a", "text", False)])
+        u = table("m_u", [("a", "text", False)])
+        return {"n": n, "kind": "exclude-sub", "cur": [x, u, other], "want": [copy.deepcopy(u), copy.deepcopy(other)],
+                "patterns": ['"""au.lg"""'], "fate": fate, "source": source, "ptable": None, "pcol": None, "pidx": None}
     if fate == "main-nomatch":
         # no table is called `main`: `main.m_u` / `main.*` match nothing in schema scope, m_u stays inspected and managed
         u = table("m_u", [("a", "text", False)], idx=[["ix_u_a", ["a"], False]])
